@@ -128,17 +128,23 @@ Definition chunk_ok (ce : list Z * Z) : bool := Nat.leb (length (fst ce)) min_re
 (* k bounds the capacity the buffer can have reached: it only serves to say which Grow sizes the contract decides.
    Grow n beyond max_alloc certainly fails with ErrTooLarge (as long as the capacity itself is below max_alloc);
    Grow n certainly succeeds when even the worst-case reallocation 2k+n stays allocatable; sizes in between
-   depend on the memory actually available and are outside the property. *)
-Definition grow_k (k n : Z) : Z := Z.max k (Z.max (Z.of_nat small_buffer_size) (2 * k + n)).
-Fixpoint rf_k (k : Z) (sc : list (list Z * Z)) : Z :=
-  match sc with [] => grow_k k (Z.of_nat min_read) | _ :: sc' => rf_k (grow_k k (Z.of_nat min_read)) sc' end.
-Definition next_k (k : Z) (o : op) : Z :=
+   depend on the memory actually available and are outside the property.
+   The bound does not double with every write: grow reallocates to 2c+n only when n > c/2 - m (m unread bytes),
+   i.e. c < 2(m+n), so the new capacity is below 5(m+n)+2 - a bound in terms of the unread length alone. *)
+Definition grow_k (k m n : Z) : Z := Z.max k (Z.max (Z.of_nat small_buffer_size) (5 * (m + n) + 2)).
+Fixpoint rf_k (k m : Z) (sc : list (list Z * Z)) : Z :=
+  match sc with
+  | [] => grow_k k m (Z.of_nat min_read)
+  | ce :: sc' => rf_k (grow_k k m (Z.of_nat min_read)) (m + zn (length (fst ce))) sc'
+  end.
+Definition next_k (k : Z) (s : spec) (o : op) : Z :=
+  let m := zn (length (un s)) in
   match o with
-  | Write p | WriteString p => grow_k k (zn (length p))
-  | WriteByte _ => grow_k k 1
-  | WriteRune _ => grow_k k 4
-  | Grow n => if (n <? 0)%Z || (max_alloc <? n)%Z then k else grow_k k n
-  | ReadFrom sc => rf_k k sc
+  | Write p | WriteString p => grow_k k m (zn (length p))
+  | WriteByte _ => grow_k k m 1
+  | WriteRune _ => grow_k k m 4
+  | Grow n => if (n <? 0)%Z || (max_alloc <? n)%Z then k else grow_k k m n
+  | ReadFrom sc => rf_k k m sc
   | _ => k
   end.
 Definition op_ok (g : bool) (k : Z) (s : spec) (o : op) : bool :=
@@ -154,7 +160,7 @@ Definition op_ok (g : bool) (k : Z) (s : spec) (o : op) : bool :=
 Fixpoint ok_seq (g : bool) (k : Z) (s : spec) (l : list op) : bool :=
   match l with
   | [] => true
-  | o :: r => op_ok g k s o && ok_seq (next_g g o) (next_k k o) (fst (sstep s o)) r
+  | o :: r => op_ok g k s o && ok_seq (next_g g o) (next_k k s o) (fst (sstep s o)) r
   end.
 
 Definition init_spec (i : init) : spec := mk (init_data i) None (Some []).
